@@ -334,7 +334,7 @@ def main(argv=None):
     for fid, (e, cnt) in sorted(known_hit.items()):
         print(f"KNOWN-FINDING: property={pid} {e['id']}: {e['text']} [{cnt} case(s) this run]")
 
-    confirmed = []
+    confirmed, vanished, unstable = [], [], 0
     if fresh:
         rdir = os.path.join(OUT, "replays", pid)
         os.makedirs(rdir, exist_ok=True)
@@ -363,9 +363,14 @@ def main(argv=None):
             if v.get("case") is not None:
                 ok = confirm(v)
             if ok is None:
-                print(f"HARNESS-ERROR violation not reproducible on replay: {vid(v)[:300]}")
-                return 2
+                vanished.append(v)
+                continue
+            if ok == "unstable":
+                unstable += 1
             confirmed.append((v, path))
+        if not confirmed:
+            print(f"HARNESS-ERROR none of {len(vanished)} violation(s) reproducible on replay; first: {vid(vanished[0])[:300]}")
+            return 2
 
     wall = time.time() - t0
     cov = {
@@ -428,6 +433,8 @@ def main(argv=None):
         for v in fresh:
             by_clause[v["clause"]] = by_clause.get(v["clause"], 0) + 1
         print("fresh violations by clause: " + jdump(by_clause))
+        if vanished or unstable:
+            print(f"replay: {len(confirmed)} confirmed ({unstable} with run-to-run varying observations), {len(vanished)} did not recur")
         for v, path in confirmed:
             print(f"  {v['clause']} {jdump(v['key'])[:240]} :: {jdump(v.get('detail'))[:300]}")
         for v, path in confirmed:
@@ -459,7 +466,10 @@ def confirm(v):
     for obs, vs in r:
         if not any(c == v["clause"] and k == jdump(v["key"]) for c, k, _ in vs):
             return None
-    return True if r[0][0] == r[1][0] else None
+    # the violation recurred in both replays; differing digests mean that OTHER outputs of
+    # the case vary from run to run (e.g. an implementation reading uninitialised memory
+    # after it produced NaN): still a violation, flagged as unstable
+    return True if r[0][0] == r[1][0] else "unstable"
 
 
 def do_replay(pid, rep):
